@@ -1,0 +1,39 @@
+//go:build verif
+
+// Contracts for the deductive verifier under /verif (comment-only file: it
+// adds no code; compiled only with -tags verif).
+package orchestrator
+
+// ---- C14: guards, rollback pairing and commit discipline of the management API -------
+// txnOpen: inside a transaction whose Discard is registered for rollback.
+//verif:def txnOpen() = succeeded("DB.NewTransaction") && called("rollback.(*R).AppendPure") && !called("Transaction.Commit") && !called("rollback.(*R).Skip")
+
+//verif:func (*ConnectorOrchestrator).Create(c, ctx, t, plugin, pipelineID, config) (conn, err)
+//verif:call-preserves (*ConnectorOrchestrator).Validate : all(pl) because "Validate only inspects the connector plugin's specification and the given config; it has no access path to the pipeline instance"
+//verif:call[only-api-provisioned-and-stopped] ConnectorService.Create requires txnOpen() && succeeded("PipelineService.Get") && pl.ProvisionedBy == ProvisionTypeAPI && result_of("pipeline.(*Instance).GetStatus", 0) != StatusRunning && succeeded("(*ConnectorOrchestrator).Validate")
+//verif:call[reference-after-create-with-undo-registered] PipelineService.AddConnector requires txnOpen() && succeeded("ConnectorService.Create") && count("rollback.(*R).Append") == 1 && arg1 == pl.ID && arg2 == result_of("ConnectorService.Create", 0).ID
+//verif:call[commit-after-both-steps-with-both-undos] Transaction.Commit requires succeeded("ConnectorService.Create") && succeeded("PipelineService.AddConnector") && count("rollback.(*R).Append") == 2
+//verif:call[skip-rollback-only-after-commit] rollback.(*R).Skip requires succeeded("Transaction.Commit")
+//verif:ensures[success-means-committed] err == nil ==> succeeded("Transaction.Commit") && called("rollback.(*R).Skip")
+//verif:ensures[failure-keeps-rollback-armed] err != nil ==> !called("rollback.(*R).Skip")
+
+//verif:closure of (*ConnectorOrchestrator).Create calling ConnectorService.Delete (c, ctx, conn) (err)
+//verif:call[undo-deletes-the-created-connector] ConnectorService.Delete requires arg1 == deref(conn).ID
+
+//verif:closure of (*ConnectorOrchestrator).Create calling PipelineService.RemoveConnector (c, ctx, pl, conn) (err)
+//verif:call[undo-removes-the-added-reference] PipelineService.RemoveConnector requires arg1 == deref(pl).ID && arg2 == deref(conn).ID
+
+//verif:func (*ProcessorOrchestrator).Update(p, ctx, id, plugin, cfg) (proc, err)
+//verif:call[only-api-provisioned-and-stopped] ProcessorService.Update requires txnOpen() && succeeded("ProcessorService.Get") && result_of("ProcessorService.Get", 0).ProvisionedBy == ProvisionTypeAPI && succeeded("(*ProcessorOrchestrator).getProcessorsPipeline") && result_of("pipeline.(*Instance).GetStatus", 0) != StatusRunning && oldPlugin == result_of("ProcessorService.Get", 0).Plugin && oldConfig == result_of("ProcessorService.Get", 0).Config
+//verif:call[commit-after-update-with-undo] Transaction.Commit requires succeeded("ProcessorService.Update") && count("rollback.(*R).Append") == 1
+//verif:call[skip-rollback-only-after-commit] rollback.(*R).Skip requires succeeded("Transaction.Commit")
+//verif:ensures[failure-keeps-rollback-armed] err != nil ==> !called("rollback.(*R).Skip")
+
+// the undo re-applies the plugin and config the processor had BEFORE the update
+//verif:closure of (*ProcessorOrchestrator).Update calling ProcessorService.Update (err, p, ctx, proc, oldPlugin, oldConfig) (rerr)
+//verif:call[undo-restores-previous-plugin-and-config] ProcessorService.Update requires arg1 == deref(proc).ID && arg2 == deref(oldPlugin) && arg3 == deref(oldConfig)
+
+//verif:func pipelineRunningErr(msg) (e)
+//verif:ensures e != nil
+//verif:func immutableProvisionedByConfigErr(msg) (e)
+//verif:ensures e != nil
